@@ -5,10 +5,12 @@
 package anndb
 
 import (
+	badger "github.com/dgraph-io/badger/v2"
 	"github.com/marekgalovic/anndb/storage/raft"
 )
 
 var _ *raft.RaftGroup
+var _ = badger.ErrKeyNotFound
 
 // C14 (survives restart) / C05 (no re-bootstrap): the start-up sequence as typestate.
 //   consumers - the catalogue state machine is registered with the shared zero group
@@ -40,10 +42,51 @@ var _ *raft.RaftGroup
 //@ ensures [built] ret != nil && fresh(ret) && ret.clusterConn == clusterConn && ret.zeroGroup == zeroGroup
 //@ modifies nothing
 // (storage.NewDatasetManager is verified in package storage)
-//@ func (*anndb.Server).getRaftNodeId
-//@ props C14 C05
+// C20/C05 (a member keeps its identity across restarts): the identity stored in the log database wins; a configured identity
+// that contradicts it is refused; a new identity (configured, or drawn from the clock) is stored before it is used; a
+// database that cannot be read is an error, never a reason to draw a new identity
+//@ func storage/wal.GetBadgerRaftId
+//@ props C14 C05 C20
 //@ assume
-//@ modifies *
+//@ modifies nothing
+//@ func storage/wal.SetBadgerRaftId
+//@ props C14 C05 C20
+//@ assume
+//@ modifies nothing
+//@ func time.Now
+//@ props C14 C05 C20
+//@ assume
+//@ modifies nothing
+//@ func (time.Time).UTC
+//@ props C14 C05 C20
+//@ assume
+//@ modifies nothing
+//@ func (time.Time).UnixNano
+//@ props C14 C05 C20
+//@ assume
+//@ modifies nothing
+//@ func (*anndb.Server).getRaftNodeId
+//@ props C14 C05 C20
+//@ safety UNCLAIMED
+//@ ghost gotId uint64 = 0
+//@ ghost getErr error = nil
+//@ ghost stored int = 0
+//@ ghost storedId uint64 = 0
+//@ at call wal.GetBadgerRaftId
+//@ requires [C20 reads-this-servers-database] $arg0 == this.db
+//@ set gotId = $ret0
+//@ set getErr = $ret1
+//@ end
+//@ at call wal.SetBadgerRaftId
+//@ requires [C20 a-new-identity-only-when-none-is-stored] $arg0 == this.db && !isnil(getErr) && getErr == badger.ErrKeyNotFound && stored == 0
+//@ set stored = 1
+//@ set storedId = $arg1
+//@ end
+//@ ensures [C20 stored-identity-wins] isnil(getErr) && isnil(ret1) ==> ret0 == gotId && stored == 0
+//@ ensures [C20 configured-identity-must-match-the-stored-one] isnil(getErr) && existingId > 0 && existingId != gotId ==> !isnil(ret1) && stored == 0
+//@ ensures [C20 new-identity-is-stored-before-it-is-used] !isnil(getErr) && isnil(ret1) ==> stored == 1 && ret0 == storedId && (existingId > 0 ==> ret0 == existingId)
+//@ ensures [C20 unreadable-database-is-an-error] !isnil(getErr) && getErr != badger.ErrKeyNotFound ==> ret1 == getErr && stored == 0
+//@ modifies nothing
 //@ func (*anndb.Server).getZeroNodeIds
 //@ props C14 C05
 //@ pure
